@@ -216,6 +216,7 @@ fn cmd_wordops(t: &mut Toks) -> String {
       "s" => { r.seek(n); "s".to_string() }
       "S" => { r.seek_to(n); "S".to_string() }
       "A" => match r.read_aligned_bytes(n) { Ok(bs) => hex(&bs), Err(e) => kind(e) },
+      "T" => match hk::reader_read_prefix_table_idx(&mut r, n) { Ok((bits_read, idx)) => format!("{}/{}", bits_read, idx), Err(e) => kind(e) },
       _ => { eprintln!("bad wordops reader op {}", op); std::process::abort() }
     });
     outs.push(format!("{}@{}", out.unwrap_or_else(|| "panic".to_string()), hk::reader_bit_idx(&r)));
